@@ -16,7 +16,7 @@ the token `err`.
 * `pssh <version> <sys> <kids> <data>`, `decodepssh <hex>`, `prpssh <kids> <pro>`, `ckpssh <kids>`
 * `b64enc <hex>`, `b64dec <text>` (`ok:<hex>` | `error` | `outside`)
 * `licence <kid:key,…> <ids|none> <0|1>` – ids `s:<text>` or `o`
-* `drmsel <string>`, `drmctx <version|-> <0|1 aesctr> <nkeys> <string>`,
+* `drmsel <string>`, `hdrver <0|1 aesctr> <nkeys>`, `drmctx <version|-> <0|1 aesctr> <nkeys> <string>`,
   `initpsshs <0|1 encrypted> <version|-> <0|1 aesctr> <string> <kids> <pro>`
 * `initrewrite <tree> <psshs> <0|1 live>`, `parseboxes <container types> <hex>` –
   tree = preorder tokens `L<type>:<payload>` / `N<type>:<nchildren>` joined by `,`
@@ -204,6 +204,12 @@ def drmsel : List String → Option String
             showSys sys ++ ":" ++ (if locs.isEmpty then "-" else joinWith "," (locs.map showLoc))))
   | _ => none
 
+def hdrver : List String → Option String
+  | [aes, n] => do
+    let h := PlayReady.minimumHeaderVersion (← parseBool aes) (← parseNat n)
+    some s!"{h} {PlayReady.minimumPlayreadyVersion h}"
+  | _ => none
+
 def drmctx : List String → Option String
   | [v, aes, n, s] => do
     let v ← parseOptNat v
@@ -294,7 +300,7 @@ def channels : List (String × (List String → Option String)) := [
   ("checksum", checksum), ("genpro", genpro), ("parsepro", parsepro), ("wrmbytes", wrmbytes),
   ("utf16dec", utf16dec), ("pssh", pssh), ("decodepssh", decodepssh), ("prpssh", prpssh),
   ("ckpssh", ckpssh), ("b64enc", b64enc), ("b64dec", b64dec), ("licence", licence),
-  ("drmsel", drmsel), ("drmctx", drmctx), ("initpsshs", initpsshs),
+  ("drmsel", drmsel), ("hdrver", hdrver), ("drmctx", drmctx), ("initpsshs", initpsshs),
   ("initrewrite", initrewrite), ("parseboxes", parseboxes)]
 
 end DashLive.Driver.Drm
